@@ -114,6 +114,11 @@ pub fn replay(v: &Value) -> Result<String, String> {
         match crate::progs::tokenize(&out.stdout) {
             Ok(t) => {
                 let t = if blank { crate::c17::blank_lines(&t) } else { t };
+                let t: Vec<crate::progs::Ev> = if v.get("drop_prompt_chatter").and_then(|x| x.as_bool()).unwrap_or(false) {
+                    t.into_iter().filter(|e| !matches!(e, crate::progs::Ev::About(_) | crate::progs::Ev::TrapNote | crate::progs::Ev::Prompt | crate::progs::Ev::Int3(_))).collect()
+                } else {
+                    t
+                };
                 let any_report = v.get("refusal_any").and_then(|x| x.as_bool()).unwrap_or(false);
                 let t: Vec<crate::progs::Ev> = if any_report { t.into_iter().map(|e| if e == crate::progs::Ev::Invalid { crate::progs::Ev::PrintRefused } else { e }).collect() } else { t };
                 let obs: Vec<String> = t.iter().map(|e| format!("{:?}", e)).collect();
